@@ -9,7 +9,7 @@ EXTENDS SharedCore
 CONSTANTS Order, Canon
 VARIABLE hist
 
-gvars == <<depth, registry, aliases, needs, generated, priv, n, hist>>
+gvars == <<layout, registry, aliases, needs, generated, priv, n, hist>>
 
 Pos(c) == CHOOSE i \in 1..Len(Order) : Order[i] = c
 Canonical(c) == (Canon => (c \in generated \/ \A i \in 1..(Pos(c) - 1) : Order[i] \in generated)) = TRUE
@@ -17,7 +17,7 @@ Canonical(c) == (Canon => (c \in generated \/ \A i \in 1..(Pos(c) - 1) : Order[i
 GInit == Init /\ hist = <<>>
 GNext == \E c \in Clients, codes \in CodeSets, force \in BOOLEAN :
             /\ Canonical(c)
-            /\ Generate(c, codes, force, depth)
+            /\ Generate(c, codes, force, layout.id)
             /\ hist' = Append(hist, [c |-> c, codes |-> codes, force |-> force])
 GSpec == GInit /\ [][GNext]_gvars
 =============================================================================
